@@ -533,6 +533,22 @@ func runMonitors(prop, dir string) {
 		script, trace := so.Text(), st.Text()
 		n++
 		m.script = script
+		if strings.HasPrefix(script, "rrt ") || strings.HasPrefix(script, "ort ") {
+			if strings.HasPrefix(script, "rrt ") {
+				nobs += m.rrt(script, trace)
+			} else {
+				nobs += m.ort(script, trace)
+			}
+			classes[strings.Join(strings.Fields(script)[:2], " ")]++
+			if len(samples) < 6 {
+				s := script + " => " + trace
+				if len(s) > 500 {
+					s = s[:500] + "…"
+				}
+				samples = append(samples, s)
+			}
+			continue
+		}
 		if strings.HasPrefix(script, "sw ") {
 			nobs += m.c05sw(script, trace)
 			if len(samples) < 6 && n%7 == 1 {
